@@ -34,6 +34,14 @@ def source(file):
 
 def apply_rewrites(text, rewrites, log, where):
     for rw in rewrites:
+        if getattr(rw, "regex", False):
+            rx = re.compile(rw.old, re.S)
+            found = rx.findall(text)
+            if len(found) != rw.count:
+                raise Undecided("%s: rewrite pattern %r found %d times, expected %d" % (where, rw.old, len(found), rw.count))
+            text = rx.sub(rw.new, text)
+            log.append({"item": where, "rule": rw.rule, "old_pattern": rw.old, "new_template": rw.new, "count": rw.count, "why": rw.why})
+            continue
         n = text.count(rw.old)
         if n != rw.count:
             raise Undecided("%s: rewrite anchor %r found %d times, expected %d" % (where, rw.old, n, rw.count))
